@@ -28,6 +28,65 @@ def prop(pid, level, rule, jobs, assumptions=None, exhaustive=False, exhaustive_
                       exhaustive_tiers=exhaustive_tiers or ["quick", "thorough"], extras=extras or [], extra_jobs=extra_jobs or [])
 
 
+def alone_vs_sequence_monitor(jobnames, cap_quick, cap_thorough):
+    """Extra monitor: every sampled case is run once more ALONE in a fresh process and the digest of what it computed ("G" record) is compared with
+    the digest it produced inside its worker's sequence (after a prelude of much larger problems and after all earlier cases of that worker).
+    What a solver computes must not depend on what ran before in the process (no function-local statics, caches or globals that outlive an object)."""
+    def fn(env):
+        import subprocess, os, glob
+        from concurrent.futures import ThreadPoolExecutor
+        cov, viols = {}, []
+        wd = env["workdir"]
+        cap = cap_thorough if env["tier"] == "thorough" else cap_quick
+        tasks = []
+        for name in jobnames:
+            exe = env["exes"][name]
+            seq = {}
+            for lp in glob.glob(os.path.join(wd, "%s.w*.log" % name)):
+                for line in open(lp, errors="replace"):
+                    if line.startswith("G "):
+                        parts = line.split()
+                        if len(parts) == 3:
+                            seq[int(parts[1])] = parts[2]
+            idxs = sorted(seq)
+            if len(idxs) > cap:
+                step = len(idxs) / float(cap)
+                idxs = [idxs[int(k * step)] for k in range(cap)]
+            for i in idxs:
+                tasks.append((name, exe, i, seq[i]))
+            cov["digests_in_sequence/" + name] = len(seq)
+
+        def run(t):
+            name, exe, i, want = t
+            lp = os.path.join(wd, "alone.%s.%d.log" % (name, i))
+            e = env["env_for"]("asan", wd, "alone")
+            subprocess.run([exe, "--tier", env["tier"], "--seed", str(env["seed"]), "--only", str(i), "--log", lp], stdout=subprocess.DEVNULL, stderr=subprocess.DEVNULL, env=e, cwd=wd, timeout=900)
+            got = None
+            try:
+                for line in open(lp, errors="replace"):
+                    if line.startswith("G "):
+                        got = line.split()[2]
+                os.remove(lp)
+            except (OSError, IndexError):
+                pass
+            return name, i, want, got
+
+        n = 0
+        with ThreadPoolExecutor(max_workers=env["JOBS"]) as pool:
+            for name, i, want, got in pool.map(run, tasks):
+                if got is None:
+                    continue
+                n += 1
+                if got != want:
+                    viols.append(dict(key="result-depends-on-what-ran-before-in-the-process/" + name, idx=i, job=name,
+                                      details=dict(digest_in_sequence=want, digest_alone=got, what="the fresh-solver outcome of this case differs between the worker's sequence (after the prelude and earlier cases) and a run of the case alone")))
+        cov["cases_compared_alone_vs_sequence"] = n
+        if tasks and n == 0:
+            raise RuntimeError("alone-vs-sequence monitor compared nothing")
+        return cov, viols
+    return fn
+
+
 def memcheck_monitor(mjobs, cap_quick, cap_thorough):
     """Extra monitor: the same driver, built without a sanitizer, run under valgrind memcheck on the first `cap` cases of each job.
     What it adds to ASan/UBSan: reads of uninitialised memory that reach a branch, an address or a system call (ASan does not see those;
@@ -262,9 +321,10 @@ prop("C06", "exploration",
      "init(), init(v'), converging / non-converging / throwing compute() and accessor reads, (c) a second solver constructed on the operator object used by (b); the three snapshots "
      "(return value, info, num_iterations, num_operations, raw bytes of eigenvalues() and eigenvectors()) must be identical, and the operator applied to a fixed vector must give the same bytes "
      "before and after compute(). Non-trivial = the observed run restarted at least once and the pre-history was not empty; distinct by (solver, n, nev, ncv, pre-history word, maxit, operation count)",
-     [dict(name="c06_g%d" % g, sources=["c06_history.cpp"], flavour="asan", flags=["-DZOO_GROUP=%d" % g], deps=ZOO_DEPS) for g in (0, 1, 2)],
+     [dict(name="c06_g%d" % g, sources=["c06_history.cpp"], flavour="asan", flags=["-DZOO_GROUP=%d" % g], deps=ZOO_DEPS, prelude=True) for g in (0, 1, 2)],
      assumptions=TRUST + ["bitwise comparison is sound because all compared runs execute in one process on identically aligned Eigen buffers (no run-time dispatch in Eigen)"],
-     extra_jobs=C06_MEMCHECK_JOBS, extras=[dict(name="c06_memcheck_monitor", fn=memcheck_monitor(C06_MEMCHECK_JOBS, 1000, 10000))])
+     extra_jobs=C06_MEMCHECK_JOBS, extras=[dict(name="c06_memcheck_monitor", fn=memcheck_monitor(C06_MEMCHECK_JOBS, 1000, 10000)),
+                                           dict(name="c06_alone_vs_sequence", fn=alone_vs_sequence_monitor(["c06_g0", "c06_g1", "c06_g2"], 700, 4000))])
 
 
 # ------------------------------------------------------------------------------------------ C05
@@ -316,8 +376,9 @@ prop("C20", "exploration",
      "threads start together and each executes its own random permutation of the list with sched_yield/usleep(0..200us) injected between operator applications. Oracle: zero ThreadSanitizer reports "
      "(de-duplicated by stack pair) and every concurrent snapshot byte-identical to the sequential one. Non-trivial = a launch in which task executions of different threads overlapped in time "
      "(measured from per-thread start/end stamps); distinct by (threads, first thread's order, launch number)",
-     [dict(name="c20_g%d" % g, sources=["c20_threads.cpp"], flavour="tsan", flags=["-DZOO_GROUP=%d" % g], deps=ZOO_DEPS + ["common/fachook.hpp"], max_workers=3) for g in (0, 1, 2)],
-     assumptions=TRUST + ["ThreadSanitizer sees the happens-before relation of the executions it observes; the evidence records how many cross-thread task pairs actually overlapped"])
+     [dict(name="c20_g%d" % g, sources=["c20_threads.cpp"], flavour="tsan", flags=["-DZOO_GROUP=%d" % g], deps=ZOO_DEPS + ["common/fachook.hpp"], max_workers=3, prelude=True) for g in (0, 1, 2)],
+     assumptions=TRUST + ["ThreadSanitizer sees the happens-before relation of the executions it observes; the evidence records how many cross-thread task pairs actually overlapped"],
+     extras=[dict(name="c20_alone_vs_sequence", fn=alone_vs_sequence_monitor(["c20_g0", "c20_g1", "c20_g2"], 36, 120))])
 
 
 # ------------------------------------------------------------------------------------------ C07
